@@ -3,7 +3,7 @@
    Definitions only. *)
 From Coq Require Import PrimFloat ZArith List Bool.
 Import ListNotations.
-Require Import PyBase Solver SolverF SolveAll Tracer TracerSolve TracerNames.
+Require Import PyBase Solver SolverF SolveAll Tracer TracerSolve TracerNames TracerLinked.
 Open Scope Z_scope.
 
 Definition ftrace := trace float.
@@ -160,3 +160,23 @@ Definition check_icase (c : icase) : bool :=
       list_eqb Nat.eqb ix ix' && Nat.eqb (length tr) k && forallb (is_empty float) tr
   | _, _ => false
   end.
+
+(* ---- a traced scripted model as a submodel of a BaseLinker (TracerLinked.v): the n passes the linker made of it
+   (labels 1..n), its values and Traces afterwards and the exception that ended the passes, against linked_passes; the
+   same submodel in an untraced twin linker against plain_passes.  evaluate_t calls _evaluate under
+   warnings.catch_warnings(record=True) + simplefilter('always'): a warning never becomes an exception there, which for
+   the scripted oracle is catch = false (cf := false). ---- *)
+Record lcase := mkLCase {
+  l_scripts : scripts; l_cfg : tcfg; l_targ : targ; l_reset : bool; l_nper : nat; l_t : Z; l_passes : nat;
+  l_vals0 : vals float; l_traces0 : ftraces;
+  l_vals : vals float; l_traces : ftraces; l_exn : option Z; l_twin_vals : vals float; l_twin_exn : option Z }.
+Definition optZ_eqb (a b : option Z) : bool :=
+  match a, b with None, None => true | Some x, Some y => Z.eqb x y | _, _ => false end.
+Definition fvals_eqb (a b : vals float) : bool := list_eqb (list_eqb feq_bits) a b.
+Definition check_lcase (c : lcase) : bool :=
+  let ev := s_ev (l_nper c) (l_scripts c) in
+  let '((v', tr'), e) := linked_passes float (l_cfg c) (l_targ c) (l_reset c) ev (l_t c) ERaise false 1 (l_passes c)
+                                       (l_vals0 c) (l_traces0 c) in
+  let '(u', eu) := plain_passes float ev (l_t c) ERaise false 1 (l_passes c) (l_vals0 c) in
+  fvals_eqb v' (l_vals c) && list_eqb trace_eqb tr' (l_traces c) && optZ_eqb e (l_exn c)
+  && fvals_eqb u' (l_twin_vals c) && optZ_eqb eu (l_twin_exn c).
